@@ -93,7 +93,11 @@ fn check_ops(rs: &dyn RankSelectOps, o: &Oracle, ps: &[usize], has_select0: bool
         if p < n { chk!(rs.get(p) == Some(o.bits[p]), "get({}) = {:?}", p, rs.get(p)); }
     }
     chk!(rs.get(n).is_none(), "get(len) not refused");
-    let ks: Vec<usize> = if o.ones.len() <= 1400 { (0..o.ones.len()).collect() } else { ps.iter().map(|&p| p % o.ones.len()).collect() };
+    // select on interleaved-256 with its select cache walks the bits from position 0 (O(len) per call): with every
+    // position of a 65536-bit vector as an index (thorough tier) one structure costs minutes; 4000 evenly spread
+    // indices plus the first and last ones keep the run inside its budget
+    let thin = |v: Vec<usize>| -> Vec<usize> { if v.len() <= 4000 { v } else { let st = v.len() / 4000 + 1; let l = v.len(); v.into_iter().enumerate().filter(|(i, _)| i % st == 0 || *i < 40 || *i + 40 >= l).map(|(_, k)| k).collect() } };
+    let ks: Vec<usize> = if o.ones.len() <= 1400 { (0..o.ones.len()).collect() } else { thin(ps.iter().map(|&p| p % o.ones.len()).collect()) };
     for &k in &ks {
         match rs.select1(k) {
             Ok(p) => { chk!(p == o.ones[k], "select1({}) = {} want {}", k, p, o.ones[k]); if p <= n { chk!(rs.rank1(p) == k || p != o.ones[k], "rank1(select1({})) != k", k); } }
@@ -103,7 +107,7 @@ fn check_ops(rs: &dyn RankSelectOps, o: &Oracle, ps: &[usize], has_select0: bool
     chk!(rs.select1(o.ones.len()).is_err(), "select1(ones) not refused: {:?}", rs.select1(o.ones.len()).ok());
     chk!(rs.select1(o.ones.len() + 1).is_err(), "select1(ones+1) not refused");
     if has_select0 {
-        let ks0: Vec<usize> = if o.zeros.len() <= 1400 { (0..o.zeros.len()).collect() } else { ps.iter().map(|&p| p % o.zeros.len()).collect() };
+        let ks0: Vec<usize> = if o.zeros.len() <= 1400 { (0..o.zeros.len()).collect() } else { thin(ps.iter().map(|&p| p % o.zeros.len()).collect()) };
         for &k in &ks0 {
             match rs.select0(k) {
                 Ok(p) => chk!(p == o.zeros[k], "select0({}) = {} want {}", k, p, o.zeros[k]),
@@ -295,28 +299,30 @@ fn one_vector(cx: &mut Ctx, bits: &[bool], mode: u32, r: &mut Rng, to_coq: bool)
                     Ok(bad) => if !bad.is_empty() { cx.sum.fail(name, None, cj.clone(), &bad.join("; ")); } }
     }
     // --- Coq model comparison for SE512 (4 option combos) and FewOne
-    if to_coq && mode == 0 && n <= 2600 && cx.shards.len() < cx.budget {
+    if to_coq && (mode == 0 || mode == 2) && n <= 2600 && cx.shards.len() < cx.budget {
         let combo = (r.below(2) == 1, r.below(2) == 1);
         let rate = *r.pick(&[1usize, 3, 64, 100, 256, 512, 512]);
         // the other dimension of the mixed structure: shorter, equal, longer (extra all-zero lines), a line longer
         let olen = match r.below(5) { 0 => 0, 1 => n / 2 + 3, 2 => n, 3 => n + 1, _ => n + 300 };
+        // storage words beyond ceil(len/64): a vector that was popped keeps its (zeroed) blocks
+        let extra = make_bv(bits, mode).blocks().len() - (n + 63) / 64;
         let res = guarded(|| {
-            let rs = RankSelectSE512::with_options(make_bv(bits, 0), combo.0, combo.1).unwrap();
-            let fw = RankSelectFewOne::from_bitvector(&make_bv(bits, 0)).unwrap();
-            let il = RankSelectInterleaved256::new(make_bv(bits, 0)).unwrap();
-            let ila = RankSelectInterleaved256::with_options(make_bv(bits, 0), true, rate).unwrap();
-            let ilb = RankSelectInterleaved256::with_options(make_bv(bits, 0), false, rate).unwrap();
-            let s2 = RankSelectSE256::with_options(make_bv(bits, 0), combo.0, combo.1).unwrap();
-            let sm = RankSelectSimple::new(make_bv(bits, 0)).unwrap();
-            let fz = RankSelectFewZero::from_bitvector(&make_bv(bits, 0)).unwrap();
-            let ad = AdaptiveRankSelect::new(make_bv(bits, 0)).unwrap();
+            let rs = RankSelectSE512::with_options(make_bv(bits, mode), combo.0, combo.1).unwrap();
+            let fw = RankSelectFewOne::from_bitvector(&make_bv(bits, mode)).unwrap();
+            let il = RankSelectInterleaved256::new(make_bv(bits, mode)).unwrap();
+            let ila = RankSelectInterleaved256::with_options(make_bv(bits, mode), true, rate).unwrap();
+            let ilb = RankSelectInterleaved256::with_options(make_bv(bits, mode), false, rate).unwrap();
+            let s2 = RankSelectSE256::with_options(make_bv(bits, mode), combo.0, combo.1).unwrap();
+            let sm = RankSelectSimple::new(make_bv(bits, mode)).unwrap();
+            let fz = RankSelectFewZero::from_bitvector(&make_bv(bits, mode)).unwrap();
+            let ad = AdaptiveRankSelect::new(make_bv(bits, mode)).unwrap();
             let other: Vec<bool> = (0..olen).map(|i| i % 3 == 0).collect();
-            let mx0 = RankSelectMixedIL256::new(make_bv(bits, 0), make_bv(&other, 0)).unwrap();
-            let mx1 = RankSelectMixedIL256::new(make_bv(&other, 0), make_bv(bits, 0)).unwrap();
+            let mx0 = RankSelectMixedIL256::new(make_bv(bits, mode), make_bv(&other, 0)).unwrap();
+            let mx1 = RankSelectMixedIL256::new(make_bv(&other, 0), make_bv(bits, mode)).unwrap();
             let (d0, d1) = (mx0.dim0(), mx1.dim1());
             let az = RankSelectAllZero::new(n); let ao = RankSelectAllOne::new(n);
             let neg: Vec<bool> = bits.iter().map(|b| !b).collect();
-            let md = MultiDimRankSelect::<2>::new(vec![make_bv(bits, 0), make_bv(&neg, 0)]).unwrap();
+            let md = MultiDimRankSelect::<2>::new(vec![make_bv(bits, mode), make_bv(&neg, 0)]).unwrap();
             let mut qs: Vec<(u32, usize)> = vec![];
             let mut sample: Vec<usize> = vec![0, n, n / 2];
             for b in [63usize, 64, 65, 511, 512, 513, 1023, 1024, 1025] { if b <= n { sample.push(b); } }
@@ -408,8 +414,8 @@ fn one_vector(cx: &mut Ctx, bits: &[bool], mode: u32, r: &mut Rng, to_coq: bool)
         if let Ok((qs, ans)) = res {
             let runs_coq: Vec<String> = runs.iter().map(|(b, k)| format!("({}, {}%N)", coq_bool(*b), k)).collect();
             let qs_coq: Vec<String> = qs.iter().map(|(op, a)| format!("({}%N, {}%N)", op, a)).collect();
-            let term = format!("RS [{}] {} {} {}%N {}%N [{}] {}", runs_coq.join("; "), coq_bool(combo.0), coq_bool(combo.1), rate, olen, qs_coq.join("; "), coq_z_list(ans.iter().cloned()));
-            cx.shards.push(term, json!({"runs": cj["runs"], "mode": 0, "speed_select": [combo.0, combo.1], "il_sample_rate": rate, "mixed_other_len": olen}));
+            let term = format!("RS [{}] {} {} {}%N {}%N {}%N [{}] {}", runs_coq.join("; "), coq_bool(combo.0), coq_bool(combo.1), rate, olen, extra, qs_coq.join("; "), coq_z_list(ans.iter().cloned()));
+            cx.shards.push(term, json!({"runs": cj["runs"], "mode": mode, "speed_select": [combo.0, combo.1], "il_sample_rate": rate, "mixed_other_len": olen, "extra_words": extra}));
         }
     }
 }
